@@ -684,89 +684,96 @@ func init() {
 	// context's error instead of a verdict. The view the NEW_VIEW opens is the very view the node's own timeout leads to, so
 	// the expiry of (h1,v0) during the validation says nothing about the block: once the validator is free, the proposal of
 	// the correct leader must still be adopted (C11), and the validation must never run under a context nothing cancels (C15).
-	registerBoth("S-newview-vs-election-ctxaware", []string{"C11", "C15", "C19"}, 1, 3, 4, func(x *X, cancel bool) {
-		n := newNode(x, 2)
-		hold := make(chan struct{})
-		n.HoldVal[1] = hold
-		n.BU.HonourCtx = true
-		n.Boot()
-		s := x.S
-		blk := kit.NewBlock(1, "B1")
-		var votes []*interfaces.ViewChangeMessage
-		for _, i := range []int{0, 1, 3} {
-			votes = append(votes, n.fac(i, nil).CreateViewChangeMessage(1, 1, nil))
+	for _, nvView := range []primitives.View{1, 3} {
+		nvView := nvView
+		name := "S-newview-vs-election-ctxaware"
+		if nvView == 3 {
+			name = "S-newview3-vs-election-ctxaware" // the same with a NEW_VIEW of view 3 (leader member 3): two views further than the timeout leads
 		}
-		f := n.fac(1, nil)
-		ppb := f.CreatePreprepareMessageContentBuilder(1, 1, blk, kit.HashOf(blk))
-		msg := f.CreateNewViewMessage(1, 1, ppb, interfaces.ExtractConfirmationsFromViewChangeMessages(votes), blk).ToConsensusRawMessage()
-		delivered := false
-		s.Thread("feeder", func() {
-			n.M.HandleConsensusMessage(n.Ctx, msg)
-			delivered = true
-		})
-		s.Thread("release", func() {
-			vs.Closed(hold)
-			close(hold)
-		})
-		var ss []sample
-		observer(n, &ss, 2)
-		addCancel(n, cancel)
-		if !s.Run(20000) {
-			x.Bad("C16", "livelock", "step horizon reached")
-		}
-		if !cancel && delivered && s.Quiescent() {
-			prepared := false
-			for _, i := range n.Sent {
-				if i.Kind == ref.KP && i.Hdr.View == 1 {
-					prepared = true
+		registerBoth(name, []string{"C11", "C15", "C19"}, 1, 3, 4, func(x *X, cancel bool) {
+			n := newNode(x, 2)
+			hold := make(chan struct{})
+			n.HoldVal[1] = hold
+			n.BU.HonourCtx = true
+			n.Boot()
+			s := x.S
+			blk := kit.NewBlock(1, "B1")
+			var votes []*interfaces.ViewChangeMessage
+			for _, i := range []int{0, 1, 3} {
+				votes = append(votes, n.fac(i, nil).CreateViewChangeMessage(1, nvView, nil))
+			}
+			f := n.fac(int(nvView), nil)
+			ppb := f.CreatePreprepareMessageContentBuilder(1, nvView, blk, kit.HashOf(blk))
+			msg := f.CreateNewViewMessage(1, nvView, ppb, interfaces.ExtractConfirmationsFromViewChangeMessages(votes), blk).ToConsensusRawMessage()
+			delivered := false
+			s.Thread("feeder", func() {
+				n.M.HandleConsensusMessage(n.Ctx, msg)
+				delivered = true
+			})
+			s.Thread("release", func() {
+				vs.Closed(hold)
+				close(hold)
+			})
+			var ss []sample
+			observer(n, &ss, 2)
+			addCancel(n, cancel)
+			if !s.Run(20000) {
+				x.Bad("C16", "livelock", "step horizon reached")
+			}
+			if !cancel && delivered && s.Quiescent() {
+				prepared := false
+				for _, i := range n.Sent {
+					if i.Kind == ref.KP && i.Hdr.View == uint64(nvView) {
+						prepared = true
+					}
+				}
+				if !prepared {
+					x.Bad("C11", "newview-lost-to-own-timeout", "the correct leader's NEW_VIEW (view "+fmt.Sprint(nvView)+") reached the node while its view was not higher (final view %d, %d expiries); its consumer gave up the validation when the context of the view being left was cancelled, and the NEW_VIEW was dropped for good: no PREPARE for that view (events %v)", n.M.State().View(), s.Fires, tail(n.Events, 10))
 				}
 			}
-			if !prepared {
-				x.Bad("C11", "newview-lost-to-own-timeout", "the correct leader's NEW_VIEW for view 1 reached the node while its view was not higher (final view %d, %d expiries); its consumer gave up the validation when the context of the view being left was cancelled, and the NEW_VIEW was dropped for good: no PREPARE for view 1 (events %v)", n.M.State().View(), s.Fires, tail(n.Events, 10))
-			}
-		}
-		finish(x, n, ss, "")
-	})
-
-	// S-newview-vs-sync: no timer ever expires (expiry budget 0). The follower is in (h1,v0) when a sync to height 2 and
-	// the correct leader's NEW_VIEW for (h1,v1) reach it in either order. The sync cancels the contexts of height 1; the
-	// worker may pick the NEW_VIEW up before the sync. A cancelled context of the current view is NOT an election timeout:
-	// the node must not "act on a pending timeout" (enter view 1, send VIEW_CHANGE) that never happened (C19), and it
-	// must end in height 2 (C14).
-	registerBoth("S-newview-vs-sync", []string{"C19", "C14"}, 0, 3, 4, func(x *X, cancel bool) {
-		n := newNode(x, 2)
-		n.Boot()
-		s := x.S
-		blk := kit.NewBlock(1, "B1")
-		var votes []*interfaces.ViewChangeMessage
-		for _, i := range []int{0, 1, 3} {
-			votes = append(votes, n.fac(i, nil).CreateViewChangeMessage(1, 1, nil))
-		}
-		f := n.fac(1, nil)
-		ppb := f.CreatePreprepareMessageContentBuilder(1, 1, blk, kit.HashOf(blk))
-		msg := f.CreateNewViewMessage(1, 1, ppb, interfaces.ExtractConfirmationsFromViewChangeMessages(votes), blk).ToConsensusRawMessage()
-		s.Thread("feeder", func() { n.M.HandleConsensusMessage(n.Ctx, msg) })
-		synced := false
-		s.Thread("sync", func() {
-			n.M.UpdateState(n.Ctx, kit.NewBlock(1, "B1"), n.proofFor(1, "B1"))
-			synced = true
+			finish(x, n, ss, "")
 		})
-		addCancel(n, cancel)
-		if !s.Run(20000) {
-			x.Bad("C16", "livelock", "step horizon reached")
-		}
-		for _, i := range n.Sent {
-			if i.Kind == ref.KVC && s.Fires == 0 {
-				x.Bad("C19", "view-change-without-timeout", "no election timer expired, yet the node sent %s (events %v)", i.Desc(), tail(n.Events, 8))
+
+		// S-newview-vs-sync: no timer ever expires (expiry budget 0). The follower is in (h1,v0) when a sync to height 2 and
+		// the correct leader's NEW_VIEW for (h1,v1) reach it in either order. The sync cancels the contexts of height 1; the
+		// worker may pick the NEW_VIEW up before the sync. A cancelled context of the current view is NOT an election timeout:
+		// the node must not "act on a pending timeout" (enter view 1, send VIEW_CHANGE) that never happened (C19), and it
+		// must end in height 2 (C14).
+		registerBoth("S-newview-vs-sync", []string{"C19", "C14"}, 0, 3, 4, func(x *X, cancel bool) {
+			n := newNode(x, 2)
+			n.Boot()
+			s := x.S
+			blk := kit.NewBlock(1, "B1")
+			var votes []*interfaces.ViewChangeMessage
+			for _, i := range []int{0, 1, 3} {
+				votes = append(votes, n.fac(i, nil).CreateViewChangeMessage(1, nvView, nil))
 			}
-		}
-		if !cancel && synced && s.Quiescent() {
-			if h := uint64(n.M.State().Height()); h != 2 {
-				x.Bad("C14", "sync-not-applied", "after UpdateState(block 1) the node is at height %d (events %v)", h, tail(n.Events, 8))
+			f := n.fac(int(nvView), nil)
+			ppb := f.CreatePreprepareMessageContentBuilder(1, nvView, blk, kit.HashOf(blk))
+			msg := f.CreateNewViewMessage(1, nvView, ppb, interfaces.ExtractConfirmationsFromViewChangeMessages(votes), blk).ToConsensusRawMessage()
+			s.Thread("feeder", func() { n.M.HandleConsensusMessage(n.Ctx, msg) })
+			synced := false
+			s.Thread("sync", func() {
+				n.M.UpdateState(n.Ctx, kit.NewBlock(1, "B1"), n.proofFor(1, "B1"))
+				synced = true
+			})
+			addCancel(n, cancel)
+			if !s.Run(20000) {
+				x.Bad("C16", "livelock", "step horizon reached")
 			}
-		}
-		finish(x, n, nil, "")
-	})
+			for _, i := range n.Sent {
+				if i.Kind == ref.KVC && s.Fires == 0 {
+					x.Bad("C19", "view-change-without-timeout", "no election timer expired, yet the node sent %s (events %v)", i.Desc(), tail(n.Events, 8))
+				}
+			}
+			if !cancel && synced && s.Quiescent() {
+				if h := uint64(n.M.State().Height()); h != 2 {
+					x.Bad("C14", "sync-not-applied", "after UpdateState(block 1) the node is at height %d (events %v)", h, tail(n.Events, 8))
+				}
+			}
+			finish(x, n, nil, "")
+		})
+	}
 
 	// S-late-newview-vs-next-election: member 2 leads view 2. It has timed out into view 1 (prefix) and already holds two
 	// votes for view 2. Then three things race: the LATE NEW_VIEW of view 1 (correct leader, fresh block), the expiry of
